@@ -255,6 +255,52 @@ theorem C22_success_completion_progress (j : Job) (n : Nat)
   · left; simpa using hp
   · right; simp only [hp]; exact offer_isSome _ _
 
+/-! #### A failing instruction send — any of the job's sends, at any position — ends the job -/
+
+theorem mem_pendingOf_hasPending {ids : List (Nat × IdSt)} {n : Nat} (h : n ∈ pendingOf ids) :
+    hasPending ids = true := by
+  unfold pendingOf at h
+  simp only [List.mem_map, List.mem_filter] at h
+  obtain ⟨p, ⟨hp, hst⟩, _⟩ := h
+  unfold hasPending
+  exact List.any_eq_true.mpr ⟨p, hp, hst⟩
+
+/-- `run` with a failing send: whichever instruction of the job goes to a node for which SendTo
+fails (first, middle, last, several), the run goroutine finishes and a result is on `j.result`;
+it is ABORTED unless a result was already there. -/
+theorem C22_failed_send_delivers_aborted (j : Job) (fail : List Nat) (n : Nat)
+    (hn : n ∈ pendingOf j.ids) (hf : n ∈ fail) :
+    (runGo j fail).run = .finished ∧ (runGo j fail).buf.isSome = true ∧
+    (j.buf = none → (runGo j fail).buf = some .aborted) := by
+  have hp : hasPending j.ids = true := mem_pendingOf_hasPending hn
+  have hsf : sendFails j.ids fail = true := by
+    unfold sendFails
+    exact List.any_eq_true.mpr ⟨n, hn, by simpa using hf⟩
+  unfold runGo
+  simp only [hp, hsf, Bool.not_true, Bool.false_eq_true, if_false, if_true]
+  refine ⟨trivial, offer_isSome _ _, ?_⟩
+  intro hb; simp [hb, offer]
+
+/-- … and with an ABORTED result delivered to the waiting listener of the current job, four
+listener steps later the job is ABORTED, no job is current, the listener is idle and (nothing else
+being queued) the cluster has left RESIZING.  Together with `C22_failed_send_delivers_aborted`:
+a job whose instruction send fails never stays RUNNING and never keeps the cluster RESIZING. -/
+theorem C22_aborted_result_leaves_resizing (s : St) (k : Nat) (j : Job)
+    (hl : s.lpc = .wait k) (hc : s.cur = some k) (hk : s.jobs[k]? = some j)
+    (hb : j.buf = some .aborted) (hr : j.run = .finished) (hst : j.state = .running)
+    (hh : s.held = none) (hq : s.queue = []) :
+    (runTrace s [.lRecv, .lComplete, .lTop, .lAfterDrain]).map
+      (fun s' => (s'.cstate, s'.lpc, s'.cur, (s'.jobs[k]?).map (·.state))) =
+    some (.normal, .idle, none, some .aborted) := by
+  have hk1 : (updJob s.jobs k (fun j => { j with buf := none }))[k]? = some { j with buf := none } :=
+    updJob_get_eq hk
+  have hk2 : (updJob (updJob s.jobs k (fun j => { j with buf := none })) k
+      (fun j => { j with state := setJState j.state (resultState .aborted) }))[k]? =
+      some { j with buf := none, state := .aborted } := by
+    rw [updJob_get_eq hk1]; simp [setJState, resultState, hst]
+  simp [runTrace, step, stepCore, Label.needsMu, hh, stepLRecv, hl, hk, hb, stepLComplete, hk1, hr,
+    hc, stepLTop, dequeue, hq, stepLAfterDrain, hk2]
+
 /-- When the mutex is held by a parked join while the listener waits for a finished run with no
 result buffered, nothing but environment switches can happen any more: a deadlock. -/
 theorem C22_held_is_deadlock {s s' : St} {l : Label} {k : Nat} {j : Job} (hh : s.held.isSome = true)
@@ -328,6 +374,16 @@ theorem C22_join_queue_full_witness :
       ([.join 2, .lIdle, .lGen (some [2]), .rStart 0, .rGo 0] ++ (List.replicate 11 (Label.join 3)))).map
       (fun s => (s.lpc, s.held.isSome, s.queue.length, s.jobs.map (·.buf) == [none], ret s (.complete 0 2 false))) =
     some (.wait 0, true, 10, true, .blocked) := by decide
+
+/-- Concrete run, cluster {0,1,4,5}, node 2 joins, three nodes must fetch data (2, 0 and 5): the
+send to node 0 fails (a send that is neither the first nor the last in any order of three).  The job
+ends ABORTED, nothing stays current, the listener is idle and the cluster is NORMAL again. -/
+theorem C22_failed_middle_send_example :
+    (runTrace (init 0 [1, 4, 5])
+      [.failsend [0], .join 2, .lIdle, .lGen (some [2, 0, 5]), .rStart 0, .rGo 0,
+       .lRecv, .lComplete, .lTop, .lAfterDrain]).map
+      (fun s => (s.lpc, s.cstate, s.cur, s.jobs.map (·.state), s.nodes)) =
+    some (.idle, .normal, none, [.aborted], [0, 1, 4, 5]) := by decide
 
 /-! ### Non-vacuity: the happy path is reachable and satisfies the hypotheses -/
 
